@@ -120,7 +120,13 @@ class Ghost:
         idx = len(self.vars) + 1
         nm = name or "%s%d" % (kind, idx)
         if tie:
-            a = z3.simplify(term(h) % self.p)
+            hh = term(h)
+            if z3.is_int_value(z3.simplify(hh)):
+                a = z3.simplify(hh % self.p)
+            else:
+                # a named field element equal to h mod p (keeps `mod` out of the terms the clauses are built from)
+                a = P.fresh("t_" + nm, define=(lambda val, hh=hh, p=self.p: val(hh) % p))
+                P.axiom(z3.And(a >= 0, a < self.p, a == hh % self.p))
         else:
             hh = term(h)
             a = P.fresh("a_" + nm, define=(lambda val, hh=hh, p=self.p: val(hh) % p))      # default: the honest value
@@ -213,7 +219,19 @@ class Ghost:
         if not items:
             return Z(0)
         s = z3.Sum([Z(0)] + [imul(term(c), v.a) for v, c in items])
-        return z3.simplify(s % self.p)
+        r = z3.simplify(s % self.p)
+        # redundant but true: every wire value lies in [0,p), so with numeric coefficients the quotient of the
+        # sum by p is bounded by the sums of the negative / positive coefficients -- spares the solver the search
+        if all(not isinstance(c, SymInt) for v, c in items):
+            lo = sum(c for v, c in items if c < 0)
+            hi = sum(c for v, c in items if c > 0)
+            key = ("qb", r.get_id())
+            memo = cur().__dict__.setdefault("_qbounds", set())
+            if key not in memo and hi - lo < (1 << 70):
+                memo.add(key)
+                q = z3.simplify(s / Z(self.p))
+                cur().axiom(z3.And(q >= lo, q <= hi))
+        return r
 
     def holds_h(self, con):
         """Triple holds on the honest assignment mod p."""
